@@ -717,7 +717,12 @@ class Harness:
                 self.rec = None
             self._clean()
             self.clock_ms = 1000
-        ctx = types.SimpleNamespace(turn_id=1, agent_id="A", now=NOW_ISO, now_ms=NOW_MS, cfg=cfg, config=cfg, enc=_Enc())
+        if case.get("warm") == "reuse-ctx":
+            # a driver that keeps ONE context object across slices and only swaps the configuration in
+            ctx = ctx0
+            ctx.turn_id, ctx.cfg, ctx.config = 1, cfg, cfg
+        else:
+            ctx = types.SimpleNamespace(turn_id=1, agent_id="A", now=NOW_ISO, now_ms=NOW_MS, cfg=cfg, config=cfg, enc=_Enc())
         self.rec = rec = _Rec(tuple(int(x) for x in case["script"]))
         try:
             result = orch.run_turn(ctx, state, case["text"])
@@ -991,19 +996,24 @@ def _turn_worker(chunk, st: Stats, scratch_root, scripts, texts, worlds):
                             mc, mw = minimise_turn(h, case, sig, what)
                             st.violation(sig, mw, mc)
                     # warm-process leg: same turn after an unbudgeted slice populated the stage caches
-                    wcase = {"kind": "turn", "world": world, "text": text, "budgets": budgets, "wall": wall,
-                             "script": [0, 0, 0, 0, 0], "warm": True}
-                    viols, outcome, nontrivial = check_turn(h, wcase)
-                    st.add("transitions")
-                    st.add("validated")
-                    st.add("turns_warm")
-                    st.distinct("outcomes", ("warm",) + tuple(outcome))
-                    cold = {sg for sg, _w in check_turn(h, dict(wcase, warm=False))[0]}
-                    for sig, what in _dedupe(viols):
-                        # only the clamp clauses are meaningful here (the warm-up slice legitimately applied and logged),
-                        # and only where the cold execution of the same turn does not already report the same clause
-                        if sig.startswith("clamp:") and sig not in cold:
-                            st.violation(sig + ":warm-cache", what + " [after an unbudgeted slice warmed the stage caches]", wcase)
+                    cold = None
+                    for warm_kind in (True, "reuse-ctx"):
+                        wcase = {"kind": "turn", "world": world, "text": text, "budgets": budgets, "wall": wall,
+                                 "script": [0, 0, 0, 0, 0], "warm": warm_kind}
+                        viols, outcome, nontrivial = check_turn(h, wcase)
+                        st.add("transitions")
+                        st.add("validated")
+                        st.add("turns_warm")
+                        st.distinct("outcomes", ("warm", str(warm_kind)) + tuple(outcome))
+                        if cold is None:
+                            cold = {sg for sg, _w in check_turn(h, dict(wcase, warm=False))[0]}
+                        for sig, what in _dedupe(viols):
+                            # only the clamp clauses are meaningful here (the warm-up slice legitimately applied and logged),
+                            # and only where the cold execution of the same turn does not already report the same clause
+                            if sig.startswith("clamp:") and sig not in cold:
+                                tag = "warm-cache" if warm_kind is True else "reused-context"
+                                st.violation(sig + ":" + tag, what + " [after an unbudgeted slice %s]" % (
+                                    "warmed the stage caches" if warm_kind is True else "ran on the same context object"), wcase)
     finally:
         h.uninstall()
         shutil.rmtree(scratch, ignore_errors=True)
